@@ -40,4 +40,48 @@ Proof.
   intros Fr T. unfold tsm. rewrite (final_part_is_always_with_final P r Fr T T). split; intros [M Min]; (split; [exact M|]); intros H S MH; apply (Min H S);
     now apply (final_part_is_always_with_final P r Fr H T).
 Qed.
+(* likewise: the initial part is the always part guarded by &initial, the dynamic part the always part guarded by not &initial *)
+Definition initial_as_always (r : srule A) : srule A := {| sp := Always; sh := sh A r; sb := (Pos, BKwI A) :: sb A r |}.
+Definition dynamic_as_always (r : srule A) : srule A := {| sp := Always; sh := sh A r; sb := (Neg, BKwI A) :: sb A r |}.
+Lemma kwi_tsat H T k : tsat A h H T (batom_tf A (BKwI A)) k = (k =? 0).
+Proof. cbn [batom_tf tsat]. destruct k as [|k]; reflexivity. Qed.
+Lemma kwi_lsat T k : lsat A h T (batom_tf A (BKwI A)) k = (k =? 0).
+Proof. cbn [batom_tf lsat]. destruct k as [|k]; reflexivity. Qed.
+Lemma initial_rule_at H T (r : srule A) k : tsat A h H T (rule_tf A (initial_as_always r)) k = if k =? 0 then tsat A h H T (rule_tf A r) k else true.
+Proof.
+  unfold rule_tf, initial_as_always. cbn [sb sh body_tf sgn_tf tsat lsat]. rewrite (kwi_tsat H T k), (kwi_lsat T k). destruct (k =? 0); cbn [andb implb]; reflexivity.
+Qed.
+Lemma dynamic_rule_at H T (r : srule A) k : tsat A h H T (rule_tf A (dynamic_as_always r)) k = if k =? 0 then true else tsat A h H T (rule_tf A r) k.
+Proof.
+  unfold rule_tf, dynamic_as_always. cbn [sb sh body_tf sgn_tf TNot tsat lsat]. rewrite (kwi_tsat H T k), (kwi_lsat T k). destruct (k =? 0); cbn [andb implb negb]; reflexivity.
+Qed.
+Theorem initial_part_is_always_with_initial (P : list (srule A)) (r : srule A) : sp A r = Initial -> forall H T,
+  tmodel A h (r :: P) H T <-> tmodel A h (initial_as_always r :: P) H T.
+Proof.
+  intros Fr H T. unfold tmodel. split; intros M r0 k [<-|I0] Hk Ad.
+  - rewrite (initial_rule_at H T r k). destruct (k =? 0) eqn:E; [|reflexivity]. apply (M r k (or_introl eq_refl) Hk). rewrite Fr. cbn. exact E.
+  - apply (M r0 k (or_intror I0) Hk Ad).
+  - rewrite Fr in Ad. cbn in Ad. pose proof (M (initial_as_always r) k (or_introl eq_refl) Hk eq_refl) as R. rewrite (initial_rule_at H T r k), Ad in R. exact R.
+  - apply (M r0 k (or_intror I0) Hk Ad).
+Qed.
+Theorem dynamic_part_is_always_without_initial (P : list (srule A)) (r : srule A) : sp A r = Dynamic -> forall H T,
+  tmodel A h (r :: P) H T <-> tmodel A h (dynamic_as_always r :: P) H T.
+Proof.
+  intros Fr H T. unfold tmodel. split; intros M r0 k [<-|I0] Hk Ad.
+  - rewrite (dynamic_rule_at H T r k). destruct (k =? 0) eqn:E; [reflexivity|]. apply (M r k (or_introl eq_refl) Hk). rewrite Fr. destruct k as [|k']; [discriminate E|reflexivity].
+  - apply (M r0 k (or_intror I0) Hk Ad).
+  - rewrite Fr in Ad. pose proof (M (dynamic_as_always r) k (or_introl eq_refl) Hk eq_refl) as R. rewrite (dynamic_rule_at H T r k) in R.
+    destruct k as [|k']; [discriminate Ad|exact R].
+  - apply (M r0 k (or_intror I0) Hk Ad).
+Qed.
+Corollary parts_same_stable_models (P : list (srule A)) (r : srule A) T :
+  (sp A r = Initial -> (tsm A h (r :: P) T <-> tsm A h (initial_as_always r :: P) T)) /\
+  (sp A r = Dynamic -> (tsm A h (r :: P) T <-> tsm A h (dynamic_as_always r :: P) T)).
+Proof.
+  split; intros Fr; unfold tsm.
+  - rewrite (initial_part_is_always_with_initial P r Fr T T). split; intros [M Min]; (split; [exact M|]); intros H S MH; apply (Min H S);
+      now apply (initial_part_is_always_with_initial P r Fr H T).
+  - rewrite (dynamic_part_is_always_without_initial P r Fr T T). split; intros [M Min]; (split; [exact M|]); intros H S MH; apply (Min H S);
+      now apply (dynamic_part_is_always_without_initial P r Fr H T).
+Qed.
 End FinalPart.
